@@ -294,6 +294,13 @@ fn sudoku_rename(name: &str) -> Option<usize> {
 }
 
 pub fn c17(out: &mut dyn Write, tier: &str, rng: &mut Rng, st: &mut Stats) {
+    // the code points the standard library counts as white space (asked for every `char`): the model strips with a table
+    // of its own (Sudoku.whitespaceTable), and the two must be the same list
+    {
+        let ws: Vec<String> = (0u32..=0x10FFFF).filter_map(char::from_u32).filter(|c| c.is_whitespace()).map(|c| (c as u32).to_string()).collect();
+        writeln!(out, "C17|ws|{}", ws.join(",")).unwrap();
+        st.hit("whitespace-table");
+    }
     let mut cases: Vec<(usize, String)> = Vec::new();
     // root 1
     for p in ["1", ".", "", "  1\n", "x1"] { cases.push((1, p.to_string())); }
@@ -362,7 +369,8 @@ pub fn c17(out: &mut dyn Write, tier: &str, rng: &mut Rng, st: &mut Stats) {
     if tier == "thorough" { cases.push((5, "12345".to_string())); cases.push((4, "9".repeat(256))); }
     for (root, puzzle) in cases {
         let (class, stdout, _) = run_tool("sudoku_gen", &["-r".into(), root.to_string()], puzzle.as_bytes(), OutArg::AfterInput, 120, st);
-        let stripped: String = puzzle.chars().filter(|c| !c.is_whitespace()).collect();
+        // the puzzle text goes to the driver as it was given: the model removes the white space itself (Sudoku.strip)
+        let stripped: &str = &puzzle;
         st.hit(&format!("root{}.exit.{}", root, class));
         if class != "ok" { writeln!(out, "C17|sudoku|{}|{}|{}|-|-", root, hex(stripped.as_bytes()), class).unwrap(); continue; }
         // the bytes themselves, for the text model of the generator (recorded tie, see Thm/C17T.lean)
